@@ -1,3 +1,622 @@
 package main
 
-func runCases(mode string, jobs, corrupt int) int { return 2 }
+import (
+	"bufio"
+	"bytes"
+	"encoding/json"
+	"fmt"
+	"os"
+	"regexp"
+	"sort"
+	"strings"
+	"sync"
+
+	"google.golang.org/protobuf/types/descriptorpb"
+
+	"github.com/bufbuild/protocompile/internal/zzverif/common/ws"
+)
+
+// vcase is one state exported by spec/MCValid.tla.
+type vcase struct {
+	WS       ws.Workspace `json:"ws"`
+	Valid    bool         `json:"valid"`
+	Broken   []string     `json:"broken"`
+	Features []string     `json:"features"`
+	FQNs     [][]string   `json:"fqns"`
+	Refs     [][]ws.Ref   `json:"refs"`
+	Desc     []any        `json:"desc"` // abstract descriptor per file (valid cases)
+}
+
+type mismatch struct {
+	Class  string `json:"class"`
+	Case   any    `json:"case"`
+	Detail string `json:"detail"`
+}
+
+type stats struct {
+	mu        sync.Mutex
+	Cases     int                       `json:"cases"`
+	Evals     int                       `json:"evaluations"`
+	Compiles  int                       `json:"compiles"`
+	Valid     int                       `json:"valid_cases"`
+	Invalid   int                       `json:"invalid_cases"`
+	Skipped   map[string]int            `json:"skipped"`
+	Outcomes  map[string]int            `json:"outcomes"`
+	Rules     map[string]int            `json:"rules"`
+	Reasons   map[string]map[string]int `json:"reasons"` // rule -> normalised stable error -> count
+	ExpReason map[string]map[string]int `json:"exp_reasons"`
+	SynSkip   int                       `json:"crosscheck_skipped_syntax_error"`
+	Features  map[string]bool           `json:"-"`
+	Nontriv   int                       `json:"distinct_nontrivial"`
+	Distinct  int                       `json:"distinct_features"`
+	Harness   []string                  `json:"harness_errors"`
+	Samples   []any                     `json:"samples"`
+}
+
+func (s *stats) harness(format string, a ...any) {
+	s.mu.Lock()
+	if len(s.Harness) < 20 {
+		s.Harness = append(s.Harness, fmt.Sprintf(format, a...))
+	}
+	s.mu.Unlock()
+}
+
+func bump(m map[string]int, k string) { m[k]++ }
+
+var (
+	reQuoted = regexp.MustCompile("`[^`]*`|\"[^\"]*\"")
+	reNum    = regexp.MustCompile(`[0-9]+`)
+	reIdent  = regexp.MustCompile(`\b(f[0-9]\.proto|[a-z_]+(\.[A-Za-z_]+)+|a|b|m|c|z[a-zA-Z_]*|Z[A-Za-z]*Entry)\b`)
+)
+
+// normMsg strips the case-specific parts (names, numbers, positions) of a diagnostic.
+func normMsg(s string) string {
+	s = firstLine(s)
+	s = reQuoted.ReplaceAllString(s, "_")
+	s = reIdent.ReplaceAllString(s, "_")
+	s = reNum.ReplaceAllString(s, "N")
+	if len(s) > 140 {
+		s = s[:140]
+	}
+	return s
+}
+
+// lookupClass joins the lookup rule ids (L-...) of the references of the case that do not resolve
+// to a usable element.
+func lookupClass(c *vcase) string {
+	set := map[string]bool{}
+	for _, rs := range c.Refs {
+		for _, r := range rs {
+			if r.Exp.Outcome == "ok" {
+				continue
+			}
+			set["O-"+r.Exp.Outcome] = true
+			for _, rule := range r.Exp.Rules {
+				if strings.HasPrefix(rule, "L-") || strings.HasPrefix(rule, "K-") {
+					set[rule] = true
+				}
+			}
+		}
+	}
+	var out []string
+	for k := range set {
+		out = append(out, k)
+	}
+	sort.Strings(out)
+	return strings.Join(out, "+")
+}
+
+func brokenRule(c *vcase) string {
+	b := append([]string{}, c.Broken...)
+	sort.Strings(b)
+	return strings.Join(b, "+")
+}
+
+// featureVector of a case: syntactic features + broken rule ids + the lookup rule ids of all its
+// references (resolved or not).
+func featureVector(c *vcase) (string, bool) {
+	set := map[string]bool{}
+	for _, f := range c.Features {
+		set[f] = true
+	}
+	for _, b := range c.Broken {
+		set[b] = true
+	}
+	refs := 0
+	for _, rs := range c.Refs {
+		for _, r := range rs {
+			refs++
+			set["O-"+r.Exp.Outcome] = true
+			for _, rule := range r.Exp.Rules {
+				set[rule] = true
+			}
+		}
+	}
+	var out []string
+	for k := range set {
+		out = append(out, k)
+	}
+	sort.Strings(out)
+	nontrivial := len(c.Broken) > 0 || refs > 0 || len(out) > 4
+	return strings.Join(out, " "), nontrivial
+}
+
+type runner struct {
+	mode    string
+	corrupt int
+	st      *stats
+	out     func(mismatch)
+	n       int
+	nmu     sync.Mutex
+}
+
+func (r *runner) report(cls string, raw json.RawMessage, c *vcase, rd *ws.Rendered, detail string) {
+	src := map[string]string{}
+	if rd != nil {
+		src = rd.Src
+	}
+	r.out(mismatch{Class: cls, Detail: detail,
+		Case: map[string]any{"replay": raw, "broken": c.Broken, "valid": c.Valid, "source": src, "lookup": lookupClass(c)}})
+}
+
+func (r *runner) run(line []byte) {
+	st := r.st
+	var c vcase
+	dec := json.NewDecoder(bytes.NewReader(line))
+	if err := dec.Decode(&c); err != nil {
+		st.harness("bad case: %v: %.200s", err, line)
+		return
+	}
+	raw := json.RawMessage(append([]byte(nil), bytes.TrimSpace(line)...))
+	r.nmu.Lock()
+	r.n++
+	no := r.n
+	r.nmu.Unlock()
+
+	// harness self-checks: FQNs agree with the spec; the rendered text says what the case says
+	if len(c.FQNs) != len(c.WS) {
+		st.harness("fqns for %d files, workspace has %d", len(c.FQNs), len(c.WS))
+		return
+	}
+	for i := range c.WS {
+		if len(c.FQNs[i]) != len(c.WS[i].Decls) {
+			st.harness("file %d: %d fqns for %d decls", i+1, len(c.FQNs[i]), len(c.WS[i].Decls))
+			return
+		}
+		for d := range c.WS[i].Decls {
+			if got := c.WS[i].FQN(d + 1); got != c.FQNs[i][d] {
+				st.harness("file %d decl %d: harness FQN %q, spec FQN %q", i+1, d+1, got, c.FQNs[i][d])
+				return
+			}
+		}
+	}
+	rd := ws.Render(c.WS)
+	skipped, err := ws.CrossCheckX(c.WS, rd)
+	if err != nil {
+		st.harness("%v", err)
+		return
+	}
+	if len(skipped) > 0 && c.Valid {
+		st.harness("valid case does not parse: %v", skipped)
+		return
+	}
+	targets := c.WS.UserPaths()
+
+	corrupt := r.corrupt > 0 && no%r.corrupt == 0
+	if corrupt {
+		// binding self-test: flip the expectation
+		if r.mode == "c02" && c.Valid {
+			corruptDesc(c.Desc)
+		} else {
+			c.Valid = !c.Valid
+			if c.Valid {
+				c.Broken = nil
+			} else {
+				c.Broken = []string{"V-corrupted"}
+			}
+		}
+	}
+
+	fv, nontriv := featureVector(&c)
+	st.mu.Lock()
+	st.Cases++
+	if len(skipped) > 0 {
+		st.SynSkip++
+	}
+	if c.Valid {
+		st.Valid++
+	} else {
+		st.Invalid++
+		bump(st.Rules, brokenRule(&c))
+	}
+	key := fv
+	if !nontriv {
+		key = "trivial|" + fv
+	}
+	st.Features[key] = true
+	if len(st.Samples) < 3 && no%97 == 1 {
+		st.Samples = append(st.Samples, map[string]any{"valid": c.Valid, "broken": c.Broken, "source": rd.Src})
+	}
+	st.mu.Unlock()
+
+	switch r.mode {
+	case "c01":
+		r.c01(&c, raw, rd, targets)
+	case "c02":
+		r.c02(&c, raw, rd, targets)
+	case "c27":
+		r.c27(&c, raw, rd, targets)
+	}
+}
+
+func diagTexts(ds []ws.Diag) []string {
+	var out []string
+	for _, d := range ds {
+		out = append(out, d.String())
+	}
+	return out
+}
+
+// ---------------------------------------------------------------------------------------------
+// C01
+
+func (r *runner) c01(c *vcase, raw json.RawMessage, rd *ws.Rendered, targets []string) {
+	st := r.st
+	res := ws.CompileSources(rd.Src, targets)
+	st.mu.Lock()
+	st.Compiles++
+	st.Evals++
+	st.mu.Unlock()
+	if res.Panic != "" {
+		r.report("c01:panic:"+normMsg(res.Panic), raw, c, rd, res.Panic)
+		return
+	}
+	rule := brokenRule(c)
+	switch {
+	case c.Valid && res.OK():
+		st.mu.Lock()
+		bump(st.Outcomes, "valid-accepted")
+		st.mu.Unlock()
+	case c.Valid && !res.OK():
+		msg := "(no error reported)"
+		if len(res.Errors) > 0 {
+			msg = res.Errors[0].Msg
+		} else if res.Err != nil {
+			msg = res.Err.Error()
+		}
+		r.report("c01:rejects-valid:"+normMsg(msg), raw, c, rd, strings.Join(diagTexts(res.Errors), " | "))
+	case !c.Valid && res.OK():
+		cls := "c01:accepts-invalid:" + rule
+		if strings.HasPrefix(rule, "V-ref-") {
+			cls += ":" + lookupClass(c)
+		}
+		r.report(cls, raw, c, rd, "spec: breaks "+rule+"; the compiler accepted the files")
+	default:
+		// rejected as expected: is one of the errors about the broken rule?
+		matched := false
+		var msgs []string
+		for _, e := range res.Errors {
+			msgs = append(msgs, e.Msg)
+		}
+		if len(msgs) == 0 && res.Err != nil {
+			msgs = append(msgs, res.Err.Error())
+		}
+		pats, known := reasonPatterns[rule]
+		for _, m := range msgs {
+			for _, p := range pats {
+				if strings.Contains(m, p) {
+					matched = true
+				}
+			}
+		}
+		st.mu.Lock()
+		bump(st.Outcomes, "invalid-rejected")
+		if st.Reasons[rule] == nil {
+			st.Reasons[rule] = map[string]int{}
+		}
+		for _, m := range msgs {
+			bump(st.Reasons[rule], normMsg(m))
+		}
+		if !known {
+			bump(st.Outcomes, "reason-unchecked:"+rule)
+		}
+		st.mu.Unlock()
+		if known && !matched {
+			r.report("c01:reason:"+rule, raw, c, rd, "rejected, but no error is about "+rule+": "+strings.Join(msgs, " | "))
+		}
+	}
+}
+
+// refReasons: a reference that does not resolve to a usable element. Whether the compiler words it
+// as "unknown" or as "invalid type: X is a field" when protoc skips a non-type and then finds nothing
+// is C15's business (same verdict); here any error about the reference is accepted.
+var refReasons = []string{"unknown type", "unknown extendee", "unknown request type", "unknown response type",
+	"invalid type", "invalid request type", "invalid response type", "extendee is invalid", "is not defined"}
+
+// reasonPatterns: for each rule, substrings one of which must occur in some error the stable
+// compiler reports for a workspace that breaks exactly that rule (the compiler's own wording;
+// protoc's wording differs, the subject must be the same).
+var reasonPatterns = map[string][]string{
+	"V-import-exists":        {"file does not exist", "not found"},
+	"V-import-dup":           {"was already imported"},
+	"V-import-cycle":         {"cycle found in imports"},
+	"V-dup-symbol":           {"already defined"},
+	"V-pkg-symbol":           {"already defined"},
+	"V-p2-label-missing":     {"field has no label"},
+	"V-p3-required":          {"label 'required' is not allowed in proto3"},
+	"V-ed-optional":          {"label 'optional' is not allowed in editions"},
+	"V-ed-required":          {"label 'required' is not allowed in proto3 or editions"},
+	"V-oneof-label":          {"oneof", "label", "syntax error"},
+	"V-map-label":            {"map", "label", "syntax error: unexpected '<'"},
+	"V-map-in-oneof":         {"map", "oneof", "syntax error"},
+	"V-ext-required":         {"extension fields cannot be 'required'"},
+	"V-num-positive":         {"tag number 0 must be greater than zero", "must be greater than zero"},
+	"V-num-max":              {"higher than max allowed tag number"},
+	"V-num-impl-reserved":    {"is in disallowed reserved range"},
+	"V-num-dup":              {"both have the same tag"},
+	"V-num-reserved":         {"which is in reserved range"},
+	"V-name-reserved":        {"is using a reserved name"},
+	"V-num-in-extrange":      {"which is in extension range"},
+	"V-range-overlap":        {"overlap"},
+	"V-p3-extrange":          {"extension ranges are not allowed in proto3"},
+	"V-rname-dup":            {"is already reserved"},
+	"V-enum-empty":           {"enums must define at least one value"},
+	"V-enum-first-zero":      {"first value of", "numeric value zero"},
+	"V-enum-dup-num":         {"both have the same numeric value"},
+	"V-oneof-empty":          {"oneof must contain at least one field"},
+	"V-map-key":              {"map", "key", "syntax error: unexpected \"bytes\"", "syntax error: unexpected \"float\"", "syntax error: unexpected \"double\""},
+	"V-p3-default":           {"default values are not allowed in proto3"},
+	"V-default-repeated":     {"default value cannot be set because field is repeated"},
+	"V-default-type":         {"default value", "expecting"},
+	"V-default-message":      {"default value cannot be set because field is a message"},
+	"V-default-enum-value":   {"default value", "enum"},
+	"V-json-conflict":        {"JSON name"},
+	"V-ref-resolve":          refReasons,
+	"V-ref-kind":             refReasons,
+	"V-ext-range":            {"is not in valid range for extended type"},
+	"V-ext-dup":              {"extension with tag", "already"},
+	"V-p3-ext":               {"extend blocks in proto3 can only be used to define custom options"},
+	"V-closed-enum-implicit": {"cannot use closed enum"},
+}
+
+// ---------------------------------------------------------------------------------------------
+// C02
+
+func (r *runner) c02(c *vcase, raw json.RawMessage, rd *ws.Rendered, targets []string) {
+	st := r.st
+	if !c.Valid {
+		st.mu.Lock()
+		bump(st.Skipped, "invalid-case")
+		st.mu.Unlock()
+		return
+	}
+	res := ws.CompileSources(rd.Src, targets)
+	st.mu.Lock()
+	st.Compiles++
+	st.mu.Unlock()
+	if res.Panic != "" {
+		r.report("c02:panic:"+normMsg(res.Panic), raw, c, rd, res.Panic)
+		return
+	}
+	if !res.OK() {
+		// accept/reject is C01's business; nothing to compare
+		st.mu.Lock()
+		bump(st.Skipped, "valid-case-rejected")
+		st.mu.Unlock()
+		return
+	}
+	for i := range c.WS {
+		if c.WS[i].Builtin {
+			continue
+		}
+		f := res.File(c.WS[i].Path)
+		if f == nil {
+			st.harness("compiled file %s missing from the result", c.WS[i].Path)
+			return
+		}
+		got := projectFile(protoFromFile(f))
+		n := 0
+		path, detail := diffAbstract(c.Desc[i], got, "", &n)
+		st.mu.Lock()
+		st.Evals += n
+		bump(st.Outcomes, "files-compared")
+		st.mu.Unlock()
+		if path != "" {
+			r.report("c02:"+path, raw, c, rd, detail)
+			return
+		}
+	}
+}
+
+// corruptDesc changes one expected member (binding self-test).
+func corruptDesc(desc []any) {
+	for _, d := range desc {
+		m, ok := d.(map[string]any)
+		if !ok {
+			continue
+		}
+		if msgs, ok := m["message_type"].([]any); ok && len(msgs) > 0 {
+			mm := msgs[0].(map[string]any)
+			if fs, ok := mm["field"].([]any); ok && len(fs) > 0 {
+				fs[0].(map[string]any)["json_name"] = "corrupted"
+				return
+			}
+			mm["name"] = "corrupted"
+			return
+		}
+		m["package"] = "corrupted"
+		return
+	}
+}
+
+// ---------------------------------------------------------------------------------------------
+// C27
+
+func (r *runner) c27(c *vcase, raw json.RawMessage, rd *ws.Rendered, targets []string) {
+	st := r.st
+	res := ws.CompileSources(rd.Src, targets)
+	ex := compileExperimental(rd.Src, targets)
+	st.mu.Lock()
+	st.Compiles += 2
+	st.Evals++
+	st.mu.Unlock()
+	if res.Panic != "" {
+		r.report("c27:stable-panic:"+normMsg(res.Panic), raw, c, rd, res.Panic)
+		return
+	}
+	if ex.Panic != "" {
+		r.report("c27:exp-panic:"+normMsg(ex.Panic), raw, c, rd, ex.Panic)
+		return
+	}
+	rule := brokenRule(c)
+	sOK, eOK := res.OK(), ex.OK
+	firstExp := "(none)"
+	if len(ex.Errors) > 0 {
+		firstExp = ex.Errors[0]
+	}
+	firstSt := "(none)"
+	if len(res.Errors) > 0 {
+		firstSt = res.Errors[0].Msg
+	}
+	if !eOK {
+		st.mu.Lock()
+		k := rule
+		if c.Valid {
+			k = "valid"
+		}
+		if st.ExpReason[k] == nil {
+			st.ExpReason[k] = map[string]int{}
+		}
+		bump(st.ExpReason[k], normMsg(firstExp))
+		st.mu.Unlock()
+	}
+	detail := fmt.Sprintf("spec: valid=%v broken=%v | stable ok=%v (%s) | experimental ok=%v (%s)", c.Valid, c.Broken, sOK, firstSt, eOK, firstExp)
+	switch {
+	case sOK != eOK:
+		var cls string
+		switch {
+		case c.Valid && sOK:
+			cls = "c27:exp-rejects-valid:" + normMsg(firstExp)
+		case c.Valid && !sOK:
+			cls = "c27:stable-rejects-valid:" + normMsg(firstSt)
+		case !c.Valid && !sOK:
+			cls = "c27:exp-accepts-invalid:" + rule
+			if strings.HasPrefix(rule, "V-ref-") {
+				cls = "c27:lookup:exp-accepts:" + lookupClass(c)
+			}
+		default:
+			cls = "c27:stable-accepts-invalid:" + rule
+		}
+		r.report(cls, raw, c, rd, detail)
+	case sOK && eOK:
+		st.mu.Lock()
+		bump(st.Outcomes, "both-accept")
+		st.mu.Unlock()
+		for i := range c.WS {
+			if c.WS[i].Builtin {
+				continue
+			}
+			p := c.WS[i].Path
+			f := res.File(p)
+			if f == nil || ex.Files[p] == nil {
+				st.harness("compiled file %s missing from a result", p)
+				return
+			}
+			sfd := protoFromFile(f)
+			efd := ex.Files[p]
+			path, d := protoDiff(stripSourceInfo(sfd), stripSourceInfo(efd))
+			if path == "" {
+				continue
+			}
+			// arbitration by the specification (valid cases): which side deviates from Descriptor(file)?
+			who := "spec-undecided"
+			if c.Valid && i < len(c.Desc) {
+				n := 0
+				ps, _ := diffAbstract(c.Desc[i], projectFile(sfd), "", &n)
+				pe, _ := diffAbstract(c.Desc[i], projectFile(efd), "", &n)
+				switch {
+				case ps == "" && pe != "":
+					who = "exp-deviates-from-spec"
+				case ps != "" && pe == "":
+					who = "stable-deviates-from-spec"
+				case ps != "" && pe != "":
+					who = "both-deviate-from-spec"
+				default:
+					who = "outside-spec-projection"
+				}
+			}
+			r.report("c27:desc:"+path+":"+who, raw, c, rd, detail+" | "+d)
+			return
+		}
+	default:
+		st.mu.Lock()
+		bump(st.Outcomes, "both-reject")
+		st.mu.Unlock()
+	}
+}
+
+func stripSourceInfo(fd *descriptorpb.FileDescriptorProto) *descriptorpb.FileDescriptorProto {
+	c := *fd //nolint
+	c.SourceCodeInfo = nil
+	return &c
+}
+
+// ---------------------------------------------------------------------------------------------
+
+func runCases(mode string, jobs, corrupt int) int {
+	st := &stats{Skipped: map[string]int{}, Outcomes: map[string]int{}, Rules: map[string]int{},
+		Reasons: map[string]map[string]int{}, ExpReason: map[string]map[string]int{}, Features: map[string]bool{}}
+	outw := bufio.NewWriterSize(os.Stdout, 1<<20)
+	var outMu sync.Mutex
+	enc := json.NewEncoder(outw)
+	perClass := map[string]int{}
+	out := func(m mismatch) {
+		outMu.Lock()
+		defer outMu.Unlock()
+		perClass[m.Class]++
+		if perClass[m.Class] <= 20 {
+			_ = enc.Encode(m)
+		}
+	}
+	r := &runner{mode: mode, corrupt: corrupt, st: st, out: out}
+	lines := make(chan []byte, 256)
+	var wg sync.WaitGroup
+	for i := 0; i < jobs; i++ {
+		wg.Add(1)
+		go func() {
+			defer wg.Done()
+			for l := range lines {
+				r.run(l)
+			}
+		}()
+	}
+	in := bufio.NewReaderSize(os.Stdin, 1<<20)
+	for {
+		l, err := in.ReadBytes('\n')
+		if len(bytes.TrimSpace(l)) > 0 {
+			lines <- l
+		}
+		if err != nil {
+			break
+		}
+	}
+	close(lines)
+	wg.Wait()
+	outw.Flush()
+	for f := range st.Features {
+		st.Distinct++
+		if !strings.HasPrefix(f, "trivial|") {
+			st.Nontriv++
+		}
+	}
+	type final struct {
+		*stats
+		PerClass map[string]int `json:"mismatch_classes"`
+	}
+	b, _ := json.Marshal(final{st, perClass})
+	fmt.Fprintf(os.Stderr, "STATS %s\n", b)
+	if len(st.Harness) > 0 {
+		return 3
+	}
+	return 0
+}
